@@ -99,3 +99,29 @@ func H_C18_defaults() {
 	}
 	vDone()
 }
+
+// H_C18_casefold: as for variables: two function names that differ in one symbolic character.
+func H_C18_casefold() {
+	letter := func(tag string) rune {
+		r := vRune(tag)
+		vAssume(vOr(vAnd(r >= 0, r < 0xD800), vAnd(r > 0xDFFF, r <= 0x10FFFF)))
+		return r
+	}
+	n1 := "f" + string(letter("n1")) + "x"
+	n2 := "F" + string(letter("n2")) + "X"
+	c := NewFunctionCollection()
+	f1 := NewDelegatedFunction(n1, c18Calc)
+	c.Add(f1)
+	same := strings.ToUpper(n1) == strings.ToUpper(n2)
+	if same {
+		vAssert(c.FindByName(n2) == IFunction(f1), "casefold:found-in-the-other-case")
+		vAssert(c.FindIndexByName(n2) == 0, "casefold:index")
+		c.RemoveByName(n2)
+		vAssert(c.Length() == 0, "casefold:removed-by-the-other-case")
+	} else {
+		vAssert(c.FindByName(n2) == nil && c.FindIndexByName(n2) == -1, "casefold:different-names-differ")
+		c.RemoveByName(n2)
+		vAssert(c.Length() == 1, "casefold:removes-only-its-own")
+	}
+	vDone()
+}
